@@ -20,8 +20,8 @@ RULE = ('worlds 2-6; group mixtures per communicator (WORLD, pairs, triples, dis
         'per-rank different interleavings across groups, all scheduler policies, line-level callback stress; non-trivial: >=2 tensors share a bucket or >=2 groups are used; '
         'distinct = hash(group mixture, capacity class, flag pattern)')
 ASSUMPTIONS = ['all members of a group submit the same tensors for that group in the same order (the API\'s contract)',
-               'simdist stands in for the c10d backend']
-REQUIRED = ['value_checks', 'segmentation_checks', 'multi_tensor_buckets', 'multi_group_runs']
+               'simdist stands in for the c10d backend; a few worlds per shard run the same per-rank program as real gloo processes (value oracle only, completion callbacks on gloo threads)']
+REQUIRED = ['value_checks', 'segmentation_checks', 'multi_tensor_buckets', 'multi_group_runs', 'real_gloo_worlds']
 
 DTS = {'float32': 4, 'float64': 8, 'bfloat16': 2}
 
@@ -157,6 +157,41 @@ def rank_fn(plan):
     return fn
 
 
+def value_checks(plan, results, res, case, mech_for, where=''):
+    """(a) every future resolves to the sum/mean over its group, with the input's shape and dtype; (b) equals the unbucketed allreduce."""
+    import torch
+    for ci, items in enumerate(plan['cycles']):
+        for ti, it in enumerate(items):
+            mem = members(plan, it['g'])
+            exp = data(mem[0], ci, ti, it, plan['real']).clone()
+            for r in mem[1:]:
+                exp += data(r, ci, ti, it, plan['real'])
+            if len(mem) > 1 and it['avg']:
+                exp = (1 / len(mem)) * exp
+            for r in mem:
+                got, dgot = results[r]['cycles'][ci]
+                t = got[ti]
+                res.count('value_checks')
+                if t.shape != exp.shape:
+                    return res.violation(where + f'cycle {ci} tensor {ti} on rank {r}: future resolved to shape {tuple(t.shape)}, input shape {tuple(exp.shape)}', case, mechanism=mech_for('shape'))
+                if t.dtype != exp.dtype:
+                    return res.violation(where + f'cycle {ci} tensor {ti} on rank {r}: future resolved to dtype {t.dtype}, input dtype {exp.dtype}', case, mechanism=mech_for('dtype'))
+                if exp.numel() == 0:
+                    continue   # a zero-element tensor: shape and dtype (checked above) are all there is
+                if plan['real'] or it['dtype'] == 'bfloat16':
+                    ok = torch.allclose(t.double(), exp.double(), rtol=4 * float(torch.finfo(exp.dtype).eps) * len(mem), atol=1e-30 + 4 * float(torch.finfo(exp.dtype).eps) * float(exp.abs().max()))
+                else:
+                    ok = torch.equal(t, exp)
+                if not ok:
+                    return res.violation(where + f'cycle {ci} tensor {ti} (group {mem}, average={it["avg"]}, symmetric={it["sym"]}) on rank {r}: bucketed result differs from the sum over the group '
+                                         f'(max dev {(t.double() - exp.double()).abs().max().item():.3g})', case, mechanism=mech_for('value'))
+                d = dgot[ti]
+                res.count('differential_checks')
+                if d.shape != t.shape or d.dtype != t.dtype or not torch.allclose(d.double(), t.double(), rtol=8 * float(torch.finfo(exp.dtype).eps), atol=1e-30 + 8 * float(torch.finfo(exp.dtype).eps) * float(exp.abs().max())):
+                    return res.violation(where + f'cycle {ci} tensor {ti} on rank {r}: bucketed result differs from the unbucketed allreduce of the same tensor', case, mechanism=mech_for('value'))
+    return True
+
+
 def run_case(rng, res, idx, stress=False):
     import torch
     from kverif import simdist
@@ -188,35 +223,8 @@ def run_case(rng, res, idx, stress=False):
     if run.failed():
         return res.violation('bucketed allreduce scenario failed: ' + run.failure_summary(), case, mechanism=mech_for('fail'))
     multi_bucket = False
-    for ci, items in enumerate(plan['cycles']):
-        for ti, it in enumerate(items):
-            mem = members(plan, it['g'])
-            exp = data(mem[0], ci, ti, it, plan['real']).clone()
-            for r in mem[1:]:
-                exp += data(r, ci, ti, it, plan['real'])
-            if len(mem) > 1 and it['avg']:
-                exp = (1 / len(mem)) * exp
-            for r in mem:
-                got, dgot = run.results[r]['cycles'][ci]
-                t = got[ti]
-                res.count('value_checks')
-                if t.shape != exp.shape:
-                    return res.violation(f'cycle {ci} tensor {ti} on rank {r}: future resolved to shape {tuple(t.shape)}, input shape {tuple(exp.shape)}', case, mechanism=mech_for('shape'))
-                if t.dtype != exp.dtype:
-                    return res.violation(f'cycle {ci} tensor {ti} on rank {r}: future resolved to dtype {t.dtype}, input dtype {exp.dtype}', case, mechanism=mech_for('dtype'))
-                if exp.numel() == 0:
-                    continue   # a zero-element tensor: shape and dtype (checked above) are all there is
-                if plan['real'] or it['dtype'] == 'bfloat16':
-                    ok = torch.allclose(t.double(), exp.double(), rtol=4 * float(torch.finfo(exp.dtype).eps) * len(mem), atol=1e-30 + 4 * float(torch.finfo(exp.dtype).eps) * float(exp.abs().max()))
-                else:
-                    ok = torch.equal(t, exp)
-                if not ok:
-                    return res.violation(f'cycle {ci} tensor {ti} (group {mem}, average={it["avg"]}, symmetric={it["sym"]}) on rank {r}: bucketed result differs from the sum over the group '
-                                         f'(max dev {(t.double() - exp.double()).abs().max().item():.3g})', case, mechanism=mech_for('value'))
-                d = dgot[ti]
-                res.count('differential_checks')
-                if d.shape != t.shape or d.dtype != t.dtype or not torch.allclose(d.double(), t.double(), rtol=8 * float(torch.finfo(exp.dtype).eps), atol=1e-30 + 8 * float(torch.finfo(exp.dtype).eps) * float(exp.abs().max())):
-                    return res.violation(f'cycle {ci} tensor {ti} on rank {r}: bucketed result differs from the unbucketed allreduce of the same tensor', case, mechanism=mech_for('value'))
+    if value_checks(plan, run.results, res, case, mech_for) is not True:
+        return
     # (c) segmentation per (rank, group) and (d) second flush issues nothing
     for r in range(W):
         for ci, items in enumerate(plan['cycles']):
@@ -247,6 +255,43 @@ def run_case(rng, res, idx, stress=False):
         capclass = 'tiny' if plan['cap'] <= 1 else ('huge' if plan['cap'] >= 10 ** 6 else 'mid')
         res.nontrivial.add(stable_hash(plan['groups'], capclass, [[(it['sym'], it['avg'], it['g']) for it in c] for c in plan['cycles']]))
     res.sample(dict(idx=idx, W=W, groups=plan['groups'], cap=plan['cap'], cycles=[len(c) for c in plan['cycles']], policy=policy))
+
+
+def real_rank(payload, rank, world):
+    """one rank of a REAL gloo world (kverif.realdist): the same per-rank program as on the simulator."""
+    plan = make_plan(case_rng(payload['seed'], ID, payload['idx'], 'real'))
+    return rank_fn(plan)(rank, world)
+
+
+def run_real_case(seed, res, idx):
+    """The same oracle on real gloo processes: completion callbacks run on gloo's own threads (real concurrency with the
+    thread that fills and flushes the buckets); odd cases add line-level yields/sleeps inside kfac/distributed.py."""
+    from kverif import realdist
+
+    plan = make_plan(case_rng(seed, ID, idx, 'real'))
+    payload = dict(seed=seed, idx=idx, jitter=(0.25 if case_rng(seed, ID, idx, 'jitter').random() < 0.6 else 0), jitter_seed=idx)
+    case = dict(real_idx=idx, W=plan['W'], groups=plan['groups'], cap=plan['cap'], jitter=payload['jitter'],
+                cycles=[[(it['g'], it['shape'], it['dtype'], it['sym'], it['avg']) for it in c] for c in plan['cycles']])
+    out, err = realdist.run('kverif.props.c08', 'real_rank', payload, plan['W'])
+    sizes_used = [len(members(plan, gi)) for gi in range(len(plan['groups']))]
+
+    def mech_for(kind):
+        if len(set(sizes_used)) < len(sizes_used):
+            return 'bucket-keyed-by-group-size'
+        if plan['mixed_dtype'] and kind in ('dtype', 'value'):
+            return 'mixed-dtype-bucket-promotes'
+        return None
+
+    if err:
+        if err.startswith('RANK FAILED') and '/kfac/' in err:
+            return res.violation('real gloo world: a rank raised inside kfac: ' + err[-300:], case, mechanism=mech_for('fail'))
+        res.count('real_gloo_unavailable')
+        return res.skip('real gloo run unavailable: ' + err[:40])
+    res.count('real_gloo_worlds')
+    res.count('real_gloo_jitter_yields', sum((o['jitter'] or {}).get('yields', 0) for o in out))
+    res.count('real_gloo_kfac_lines_traced', sum((o['jitter'] or {}).get('lines', 0) for o in out))
+    if value_checks(plan, [o['result'] for o in out], res, case, mech_for, where='real gloo world: ') is True:
+        res.add('real_gloo_plans', stable_hash(plan['groups'], plan['cap'], [len(c) for c in plan['cycles']]))
 
 
 def segment(events, subs, cap):
@@ -289,8 +334,15 @@ def run_shard(spec, res):
             break
         res.evaluations += 1
         run_case(case_rng(spec['seed'], ID, i), res, i, stress=(i % 4 == 0))
+    # a few worlds of real gloo processes per shard (quick: 1, thorough: up to 12, while the budget lasts)
+    for j in range(1 if spec['tier'] == 'quick' else 12):
+        if j and dl.over():
+            break
+        run_real_case(spec['seed'], res, spec['first'] + j)
 
 
 def replay(case, res):
     import os
+    if 'real_idx' in case:
+        return run_real_case(int(os.environ.get('VERIF_SEED', '0')), res, case['real_idx'])
     run_case(case_rng(int(os.environ.get('VERIF_SEED', '0')), ID, case['idx']), res, case['idx'], stress=(case['idx'] % 4 == 0))
